@@ -1450,6 +1450,7 @@ enum JoinValue {
     Int64(i64),
     Float64(ordered_float::OrderedFloat<f64>),
     String(String),
+    Decimal(i128),
 }
 
 impl PartialEq for JoinKey {
@@ -1465,6 +1466,7 @@ impl PartialEq for JoinKey {
                 (JoinValue::Int64(a), JoinValue::Int64(b)) => a == b,
                 (JoinValue::Float64(a), JoinValue::Float64(b)) => a == b,
                 (JoinValue::String(a), JoinValue::String(b)) => a == b,
+                (JoinValue::Decimal(a), JoinValue::Decimal(b)) => a == b,
                 _ => false,
             })
     }
@@ -1488,6 +1490,10 @@ impl Hash for JoinKey {
                 JoinValue::String(s) => {
                     3u8.hash(state);
                     s.hash(state);
+                }
+                JoinValue::Decimal(d) => {
+                    4u8.hash(state);
+                    d.hash(state);
                 }
             }
         }
@@ -1726,7 +1732,46 @@ fn extract_join_key(arrays: &[ArrayRef], row: usize) -> JoinKey {
                 return JoinValue::Null;
             }
 
-            JoinValue::Null
+            // The remaining types this table can key on exactly. They only
+            // get here when the vectorized table declined the key set (it
+            // knows none of them); falling through to Null made a join keyed
+            // on e.g. a TIMESTAMP match nothing at all, silently.
+            {
+                use arrow::array::AsArray;
+                use arrow::datatypes::*;
+                macro_rules! int {
+                    ($t:ty) => {
+                        JoinValue::Int64(arr.as_primitive::<$t>().value(row) as i64)
+                    };
+                }
+                match arr.data_type() {
+                    DataType::Int8 => int!(Int8Type),
+                    DataType::Int16 => int!(Int16Type),
+                    DataType::UInt8 => int!(UInt8Type),
+                    DataType::UInt16 => int!(UInt16Type),
+                    DataType::UInt32 => int!(UInt32Type),
+                    DataType::Date64 => int!(Date64Type),
+                    DataType::Timestamp(TimeUnit::Second, _) => int!(TimestampSecondType),
+                    DataType::Timestamp(TimeUnit::Millisecond, _) => {
+                        int!(TimestampMillisecondType)
+                    }
+                    DataType::Timestamp(TimeUnit::Microsecond, _) => {
+                        int!(TimestampMicrosecondType)
+                    }
+                    DataType::Timestamp(TimeUnit::Nanosecond, _) => int!(TimestampNanosecondType),
+                    DataType::Boolean => JoinValue::Int64(arr.as_boolean().value(row) as i64),
+                    DataType::Float32 => JoinValue::Float64(ordered_float::OrderedFloat(
+                        arr.as_primitive::<Float32Type>().value(row) as f64,
+                    )),
+                    DataType::Decimal128(_, _) => {
+                        JoinValue::Decimal(arr.as_primitive::<Decimal128Type>().value(row))
+                    }
+                    DataType::LargeUtf8 => {
+                        JoinValue::String(arr.as_string::<i64>().value(row).to_string())
+                    }
+                    _ => JoinValue::Null,
+                }
+            }
         })
         .collect();
 
